@@ -905,3 +905,53 @@ pub fn plan(o: PlanOpts) -> BoxedStrategy<Plan> {
         })
         .boxed()
 }
+
+/// A fixed, plain, valid plan (used as the skeleton of enumerations).
+pub fn simple_plan(carrier: Carrier) -> Plan {
+    let instant = Instant::from_civil(2015, 8, 30, 12, 36, 0, 0);
+    let style = TsStyle::BASIC_Z;
+    let logical = Logical {
+        method: "GET".into(),
+        segments: vec![B::from("p")],
+        trailing_slash: false,
+        query: vec![(B::from("k"), B::from("v"))],
+        headers: vec![("host".into(), vec![B::from("example.amazonaws.com")])],
+        body: B::default(),
+    };
+    let cfg = ServerConfig { now: instant, ..ServerConfig::default() };
+    let mut spec = SignSpec::basic(carrier, "AKIDEXAMPLE", "wJalrXUtnFEMI/K7MDENG+bPxRfiCYEXAMPLEKEY", &render(instant, style));
+    spec.signed_headers = if carrier == Carrier::Header { vec!["host".into(), "x-amz-date".into()] } else { vec!["host".into()] };
+    let entry = KeyEntry {
+        access_key: "AKIDEXAMPLE".into(),
+        token: None,
+        secret: "wJalrXUtnFEMI/K7MDENG+bPxRfiCYEXAMPLEKEY".into(),
+        derive_as: None,
+        principal: PrincipalSpec::Empty,
+        session: vec![],
+    };
+    Plan { logical, spelling: Spelling { version: 11, ..Spelling::default() }, cfg, spec, entry, instant, style, form: None }
+}
+
+impl Plan {
+    /// Re-render the request timestamp (keeps everything else).
+    pub fn with_time(mut self, instant: Instant, style: TsStyle) -> Plan {
+        self.instant = truncate_to_style(instant, &style);
+        self.style = style;
+        self.spec.ts_text = render(self.instant, style);
+        self
+    }
+}
+
+/// plan options with everything irrelevant kept quiet
+pub fn quiet_opts() -> PlanOpts {
+    PlanOpts {
+        logical: LogicalOpts { max_segments: 2, max_query: 2, max_headers: 2, body_class: 0, raw_segments: false },
+        allow_s3: false,
+        allow_fold: false,
+        rich_reqs: false,
+        header_only: false,
+        query_only: false,
+        plain_spelling: true,
+        form_bodies: false,
+    }
+}
